@@ -11,7 +11,7 @@ Tables == {<<0>>, <<0, 1>>, <<1, 2>>, <<0, 1, 2, 3>>, <<2>>, <<4>>, <<3, 4>>}
 Letters ==
     {[op |-> "set_mem_table", rids |-> T, rid |-> 0, S |-> 0, off |-> 0, wo |-> "", wl |-> ""] : T \in Tables}
     \cup {[op |-> "add_mem_reg", rids |-> <<>>, rid |-> r, S |-> 0, off |-> 0, wo |-> "", wl |-> ""] : r \in DPool}
-    \cup {[op |-> "set_log_base", rids |-> <<>>, rid |-> 0, S |-> S, off |-> off, wo |-> "", wl |-> ""] : S \in {1, 2, 3, 5, 4096}, off \in {0, 4096}}
+    \cup {[op |-> "set_log_base", rids |-> <<>>, rid |-> 0, S |-> S, off |-> off, wo |-> "", wl |-> ""] : S \in {1, 2, 3, 5, 4096}, off \in {0, 4096, 40, 4136}}
     \cup {[op |-> "write", rids |-> <<>>, rid |-> r, S |-> 0, off |-> 0, wo |-> wo, wl |-> wl] : r \in DPool, wo \in WOff, wl \in WLen}
     \cup {[op |-> "use_ring", rids |-> <<>>, rid |-> 0, S |-> 0, off |-> 0, wo |-> "", wl |-> ""]}
 
@@ -24,10 +24,10 @@ Step(a) ==
     /\ (a.op = "use_ring" => 0 \in table)
     /\ (a.op = "add_mem_reg" => a.rid \notin table /\ \A x \in table : DHi(x) <= DLo(a.rid) \/ DHi(a.rid) <= DLo(x))
     /\ table' = CASE a.op = "set_mem_table" -> SeqSet(a.rids) [] a.op = "add_mem_reg" -> table \cup {a.rid} [] OTHER -> table
-    /\ logS' = IF a.op = "set_log_base" /\ LogVerdict(table, a.S) = "must_ok" THEN a.S ELSE logS
+    /\ logS' = IF a.op = "set_log_base" /\ LogVerdictAt(table, a.S, a.off) # "must_fail" THEN a.S ELSE logS
     \* a refused SET_LOG_BASE while a log is in force changes nothing in the model -- but histories that pass through one
     \* are kept apart (rej is part of the view), because an implementation may leave something behind on that error path
-    /\ rej' = (rej \/ (a.op = "set_log_base" /\ logS > 0 /\ LogVerdict(table, a.S) # "must_ok"))
+    /\ rej' = (rej \/ (a.op = "set_log_base" /\ logS > 0 /\ LogVerdictAt(table, a.S, a.off) # "must_ok"))
     /\ hist' = Append(hist, a)
     /\ ((a.op \in {"write", "use_ring", "set_log_base"} /\ (logS' > 0 \/ a.op = "set_log_base")) =>
             PrintT(<<"CASE", ToJson([steps |-> Append(hist, a)])>>))
